@@ -75,7 +75,8 @@ class AuthClientDriver:
             return {'valid': b'OK 1234deadbeef', 'nothex': b'OK xyz', 'missing': b'OK', 'spaced': b'OK 1234 deadbeef',
                     'odd': b'OK 1234dea', 'tabbed': b'OK 12\t34'}[args[0]]
         if name == 'Data':
-            return b'DATA ' + binascii.hexlify(b'ctx 1 5ea1ed') if args[0] == 'challenge' else b'DATA zz'
+            return {'challenge': b'DATA ' + binascii.hexlify(b'ctx 1 5ea1ed'), 'noid': b'DATA ' + binascii.hexlify(b'ctx 99 5ea1ed'),
+                    'garbage': b'DATA zz'}[args[0]]
         if name == 'Unknown':
             return {'word': b'HELLO there', 'empty': b'', 'nontext': b'\xff\xfeOK 12', 'begin': b'BEGIN'}[args[0]]
         if name == 'AfterClose':
@@ -270,7 +271,7 @@ def rand_action(rng):
     if r < 0.68:
         return ('Agree', ())
     if r < 0.9:
-        return ('Data', (rng.choice(['challenge', 'garbage']),))
+        return ('Data', (rng.choice(['challenge', 'challenge', 'garbage', 'noid']),))
     return ('Unknown', (rng.choice(['word', 'empty', 'nontext', 'begin']),))
 
 
